@@ -177,7 +177,7 @@ Qed.
 
 Lemma new_symbol_token_np l t : new_symbol_token l t <> Panic.
 Proof.
-  unfold new_symbol_token. destruct (symbol_identifier t); [|discriminate].
+  unfold new_symbol_token. destruct (symbol_identifier t); [|destruct (symbol_id_out_of_range t); discriminate].
   destruct (z <? 0)%Z; [discriminate|]. destruct (tok_by_sid l (Z.to_N z)); discriminate.
 Qed.
 
@@ -1029,7 +1029,7 @@ Proof.
   - destruct (z <? 0)%Z; [discriminate|]. unfold tok_by_sid.
     destruct (sid_ok l (Z.to_N z)); [|discriminate]. intros E; injection E as <-.
     unfold vtok. cbn. destruct (lst_find_by_id l (Z.to_N z)) eqn:F; [|exact I]. eapply v_lst_find; eassumption.
-  - intros E; injection E as <-. apply v_name_token, Ht.
+  - destruct (symbol_id_out_of_range t); [discriminate|]. intros E; injection E as <-. apply v_name_token, Ht.
 Qed.
 Lemma v_tok_text t : vtext t -> vtok (tok_text t).
 Proof. intros H; exact H. Qed.
